@@ -315,7 +315,8 @@ def run_check(modname: str, tier: str, seed: int, jobs: int | None = None) -> in
                     runs += ex.submit(_wreplay, modname, v["case"], 1).result()
                 except Exception as e:
                     runs.append([{"witness": {"kind": "replay-died"}, "detail": {"err": repr(e)}}])
-        stable = len(runs) == 2 and jkey(runs[0]) == jkey(runs[1]) and len(runs[0]) > 0
+        # identity = the witnesses (details may carry environment-dependent values such as generated temporary names)
+        stable = len(runs) == 2 and _wkey(runs[0]) == _wkey(runs[1]) and len(runs[0]) > 0
         if not stable:
             unstable += 1
         os.makedirs(rdir, exist_ok=True)
@@ -411,6 +412,10 @@ def run_check(modname: str, tier: str, seed: int, jobs: int | None = None) -> in
     return 0
 
 
+def _wkey(run):
+    return jkey([v.get("witness") for v in run])
+
+
 def replay(path: str) -> int:
     from mc import bootstrap
 
@@ -421,7 +426,7 @@ def replay(path: str) -> int:
     for _ in range(2):
         with _pool(repo, rec.get("buf"), 1) as ex:
             runs += ex.submit(_wreplay, rec["module"], rec["case"], 1).result()
-    same = jkey(runs[0]) == jkey(runs[1])
+    same = _wkey(runs[0]) == _wkey(runs[1])
     print(json.dumps({"deterministic": same, "violations": runs[0]}, indent=1, default=str)[:6000])
     if not same:
         print("replay is not deterministic")
